@@ -1,6 +1,70 @@
-(* C05 - statements only; proofs in the *Facts.v files. (grows) *)
-From Sbdf Require Import Va VaFacts PrimFacts ObjFacts.
-Theorem C05_value_array_wire : forall swp v, wf_va v -> byte_ok (vty v) ->
-  wspec (va_write swp v) (Ok tt) (enc_va swp v) /\ rspec (va_read swp None) (enc_va swp v) v.
-Proof. intros swp v W B. split; [exact (wspec_va swp v W)|exact (rspec_va swp v W B)]. Qed.
-Print Assumptions C05_value_array_wire.
+(* C05 — hostile or corrupt input never breaks memory safety.
+   What the model can carry of this property (the C pointer arithmetic itself is observed by
+   ASan/UBSan and the allocator ledger in the correspondence run, not proved):
+   - termination and totality: every reader of the model is a total Gallina function, defined by
+     structural recursion on the unread input or on a count bounded by it; for EVERY byte string a
+     call returns a value or a status, nothing else;
+   - a failed read carries no value: `Err status` has no payload (output "unset" by construction);
+   - only documented statuses are returned, by every reader and by the whole session;
+   - the size and count fields that used to overflow or be trusted are refused.
+   Statements only; proofs in DocFacts.v, StatusFacts.v, SevenBit.v. *)
+From Sbdf Require Import File PrimFacts SevenBit VaFacts StatusFacts DocFacts.
+
+Theorem C05_session_statuses_documented : forall swp cap subset bytes,
+  let '(_, st, _) := read_table swp cap subset bytes in documented st.
+Proof. exact read_table_status_documented. Qed.
+Print Assumptions C05_session_statuses_documented.
+
+Theorem C05_reader_statuses_documented : forall swp cap,
+  errs_in fh_read /\ errs_in (tm_read swp cap) /\
+  (forall ncols subset, errs_in (ts_read swp cap ncols subset)) /\ (forall ncols, errs_in (ts_skip swp cap ncols)) /\
+  errs_in (cs_read swp cap) /\ errs_in (cs_skip swp) /\ errs_in (va_read swp cap) /\ errs_in (va_skip swp).
+Proof.
+  intros swp cap.
+  exact (conj errs_fh (conj (errs_tm_read swp cap) (conj (errs_ts_read swp cap) (conj (errs_ts_skip swp cap)
+        (conj (errs_cs_read swp cap) (conj (errs_cs_skip swp) (conj (errs_va_read swp cap) (errs_va_skip swp)))))))).
+Qed.
+Print Assumptions C05_reader_statuses_documented.
+
+(* the documented set is the set of status macros of errors.h, regenerated on every run *)
+Theorem C05_documented_is_errors_h : forall e, documented e <-> In e all_status_macros.
+Proof.
+  intros e. unfold documented. rewrite existsb_exists. split.
+  - intros (x & Hx & E). apply Z.eqb_eq in E. now subst.
+  - intros H. exists e. split; [exact H|apply Z.eqb_refl].
+Qed.
+Print Assumptions C05_documented_is_errors_h.
+
+(* sizes and counts from the stream that must not be trusted *)
+Theorem C05_hostile_sizes_refused : forall swp cap v tail ty ncols subset, i32_range v -> v < 0 ->
+  obj_read_arr swp cap ty (enc32 swp v ++ tail) = Err SBDF_ERROR_INVALID_SIZE /\
+  read_string swp cap (enc32 swp v ++ tail) = Err SBDF_ERROR_INVALID_SIZE /\
+  ts_read swp cap ncols subset ([223; 91; 3] ++ enc32 swp v ++ tail) = Err SBDF_ERROR_INVALID_SIZE /\
+  va_read swp cap (SBDF_RUNLENGTHENCODINGTYPEID :: ty :: enc32 swp v ++ tail) = Err SBDF_ERROR_INVALID_SIZE /\
+  va_read swp cap (SBDF_BITARRAYENCODINGTYPEID :: ty :: enc32 swp v ++ tail) = Err SBDF_ERROR_INVALID_SIZE.
+Proof.
+  intros swp cap v tail ty ncols subset R H.
+  split; [now apply obj_read_arr_negative_count|]. split; [now apply read_string_negative_length|].
+  split; [now apply ts_read_negative_column_count|].
+  split; apply va_read_negative_row_count; auto.
+Qed.
+Print Assumptions C05_hostile_sizes_refused.
+
+Theorem C05_inconsistent_run_length_array_refused : forall ty n runs vals,
+  (is_arr ty = true \/ 0 < usize ty) -> (length runs <> length vals \/ rle_total runs <> n) ->
+  va_get_values {| vty := ty; venc := SBDF_RUNLENGTHENCODINGTYPEID; value1 := n;
+                   o1 := Some (byte_obj runs); o2 := Some {| oty := ty; oelems := vals |} |} = Err SBDF_ERROR_INVALID_SIZE.
+Proof. exact get_values_inconsistent_rows. Qed.
+Print Assumptions C05_inconsistent_run_length_array_refused.
+
+Theorem C05_overlong_packed_length_refused : forall b0 b1 b2 b3 b4 rest,
+  128 <= b0 -> 128 <= b1 -> 128 <= b2 -> 128 <= b3 -> 128 <= b4 ->
+  read_7bit (b0 :: b1 :: b2 :: b3 :: b4 :: rest) = Err SBDF_ERROR_INVALID_SIZE.
+Proof. exact read7_overlong. Qed.
+Print Assumptions C05_overlong_packed_length_refused.
+
+(* allocations above what the system grants are reported as out-of-memory, not crashed on (the
+   allocation cap of the model: used by the correspondence run with cap = 64 MiB) *)
+Theorem C05_refused_allocation_reported : forall c n s, c < n -> ralloc (Some c) n s = Err SBDF_ERROR_OUT_OF_MEMORY.
+Proof. intros c n s H. unfold ralloc, alloc_ok. destruct (n <=? c) eqn:E; [lia|reflexivity]. Qed.
+Print Assumptions C05_refused_allocation_reported.
